@@ -4,6 +4,8 @@
 For the unmutated source and for each one-line semantic mutation of the translated Python functions
 (artlib/supervised/ARTMAP.py, the accessors / predict_ab of artlib/supervised/SimpleARTMAP.py, BaseARTMAP.map_a2b,
 BaseART.n_clusters and the defaults of BaseART.fit that the translation reads) this script
+(the source is read from $VERIF_REPO, default /repo; the mutations of the first-batch reset of ARTMAP.partial_fit need
+the source with fix F48)
   1. copies the four source files to a scratch repo under /tmp and applies the mutation there,
   2. runs `atrans.generate` on the scratch repo           -> "translator failed closed" if it raises Unsupported,
   3. compiles the generated text as module ArtGen.ARTMAP in a scratch directory (never in /verif/lean/ArtGen) and
@@ -28,7 +30,19 @@ from artv import atrans  # noqa: E402
 from artv.ktrans import Unsupported  # noqa: E402
 
 REPO = Path(os.environ.get("VERIF_REPO", "/repo"))
+# the spec checked against each generated text (override: a copy that is being worked on outside the project)
+SPEC = Path(os.environ.get("ARTMAP_SPEC", LEAN / "ArtGenProofs" / "ARTMAPSpec.lean"))
 A, S, M, B = (atrans.FILES[c] for c in ("ARTMAP", "SimpleARTMAP", "BaseARTMAP", "BaseART"))
+
+# the conditional at the head of ARTMAP.partial_fit (fix F48), as it stands in the source
+FIRST_BATCH_BLOCK = (
+    '        if not hasattr(self, "labels_"):\n'
+    '            # first batch of this host: the B-side starts a new model, as in fit\n'
+    '            # (SimpleARTMAP.partial_fit does the same for the A-side)\n'
+    '            self.module_b.W = []\n'
+    '            self.module_b.weight_sample_counter_ = []\n'
+    '            self.module_b.sample_counter_ = 0\n'
+    '            self.module_b.labels_ = np.zeros((0,), dtype=int)\n')
 
 # (label, file, old text (must occur exactly once), new text)
 MUTATIONS = [
@@ -67,6 +81,32 @@ MUTATIONS = [
      "        super(ARTMAP, self).partial_fit(\n            X,\n            self.labels_b[-X.shape[0] :],\n"
      "            match_tracking=match_tracking,\n            epsilon=epsilon,\n        )\n"
      "        self.module_b.partial_fit(y, match_tracking=match_tracking, epsilon=epsilon)\n"),
+    # the reset of the B-side on the host's first batch (fix F48)
+    ("ARTMAP.partial_fit: first-batch test with the polarity flipped (B-side reset on every later batch)", A,
+     'if not hasattr(self, "labels_"):', 'if hasattr(self, "labels_"):'),
+    ("ARTMAP.partial_fit: first-batch reset of module_b.W dropped", A,
+     "            self.module_b.W = []\n", ""),
+    ("ARTMAP.partial_fit: first-batch reset of module_b.weight_sample_counter_ dropped", A,
+     "            self.module_b.weight_sample_counter_ = []\n", ""),
+    ("ARTMAP.partial_fit: first-batch reset of module_b.sample_counter_ dropped", A,
+     "            self.module_b.sample_counter_ = 0\n", ""),
+    ("ARTMAP.partial_fit: first-batch reset of module_b.labels_ dropped", A,
+     "            self.module_b.labels_ = np.zeros((0,), dtype=int)\n", ""),
+    ("ARTMAP.partial_fit: first-batch reset applied to module_a instead of module_b (whole block)", A,
+     FIRST_BATCH_BLOCK, FIRST_BATCH_BLOCK.replace("self.module_b.", "self.module_a.")),
+    ("ARTMAP.partial_fit: first-batch reset of W applied to module_a (one line)", A,
+     "            self.module_b.W = []\n", "            self.module_a.W = []\n"),
+    ("ARTMAP.partial_fit: first-batch reset moved after module_b.partial_fit (the batch's own B-side training is wiped)", A,
+     FIRST_BATCH_BLOCK + "        self.module_b.partial_fit(y, match_tracking=match_tracking, epsilon=epsilon)\n",
+     "        self.module_b.partial_fit(y, match_tracking=match_tracking, epsilon=epsilon)\n" + FIRST_BATCH_BLOCK),
+    ("ARTMAP.partial_fit: first-batch reset leaves the sample counter at 1 (off by one)", A,
+     "            self.module_b.sample_counter_ = 0\n", "            self.module_b.sample_counter_ = 1\n"),
+    ("ARTMAP.partial_fit: first-batch reset leaves one stale label (np.zeros((1,)))", A,
+     "self.module_b.labels_ = np.zeros((0,), dtype=int)", "self.module_b.labels_ = np.zeros((1,), dtype=int)"),
+    ("ARTMAP.partial_fit: first-batch test reads module_b's W instead of the host's labels_", A,
+     'if not hasattr(self, "labels_"):', 'if not hasattr(self.module_b, "W"):'),
+    ("ARTMAP.partial_fit: first-batch reset unconditional (block dedented: every batch restarts the B-side)", A,
+     FIRST_BATCH_BLOCK, "\n".join(ln[4:] for ln in FIRST_BATCH_BLOCK.splitlines()[1:]) + "\n"),
     ("ARTMAP.labels_b reads the A-side labels", A,
      "        return self.module_b.labels_\n", "        return self.module_a.labels_\n"),
     ("ARTMAP.labels_ab: A and B swapped", A,
@@ -172,7 +212,7 @@ def check(root: Path, repo: Path, lean_path: str, lean_bin: str) -> tuple[str, s
     if r.returncode != 0:
         return "generated file does not compile", (r.stdout + r.stderr).strip().splitlines()[0][:200]
     env = dict(os.environ, LEAN_PATH=f"{gen}:{lean_path}")
-    r = subprocess.run([lean_bin, "ArtGenProofs/ARTMAPSpec.lean"], cwd=LEAN, env=env, capture_output=True, text=True)
+    r = subprocess.run([lean_bin, str(SPEC)], cwd=LEAN, env=env, capture_output=True, text=True)
     errs = [ln for ln in (r.stdout + r.stderr).splitlines() if ": error" in ln]
     if r.returncode != 0 or errs:
         return "proof build broke", (errs[0] if errs else f"exit code {r.returncode}")[:160]
